@@ -918,6 +918,24 @@ theorem Inv_restore_of (s0 : St) (hw : WF s0) (e3 : s0.held = []) (e4 : s0.marks
     rw [← hlp] at hs
     simpa using hs
 
+/-- a restore that completes although reads may fail has handled every collected lease: it IS the fault-free restore,
+and no collected lease's read failed -/
+theorem restoreF_some (fail : Nat → Bool) (ls : List Lease) (s s' : St) :
+    restoreF fail ls s = some s' ↔ (s' = restore ls s ∧ ∀ l ∈ ls, fail l.id = false) := by
+  unfold restore
+  induction ls generalizing s with
+  | nil =>
+    simp only [restoreF, List.foldl_nil, List.not_mem_nil, false_imp_iff, implies_true, and_true, Option.some.injEq]
+    exact eq_comm
+  | cons a t ih =>
+    simp only [restoreF, List.foldl_cons, List.mem_cons, forall_eq_or_imp]
+    split
+    · rename_i hf; simp [hf]
+    · rename_i hf
+      rw [ih]
+      simp only [Bool.not_eq_true] at hf
+      simp [hf]
+
 /-- a restart rebuilds tracking from WHATEVER is stored (any memory, any marks, any holds before) -/
 theorem Inv_restart (s : St) (hw : WF s) (now : Int) : Inv (restart s now) := by
   unfold restart
@@ -1089,6 +1107,19 @@ theorem Inv_applyOp (s : St) (o : Op) (h : Inv s) : Inv (applyOp s o).1 := by
     split
     · exact h
     · exact Inv_restart s h.wf now
+  | restartFault fid now =>
+    simp only [applyOp]
+    split
+    · exact h
+    · exact Inv_restart s h.wf now
+  | unsealNsFault ns fid now =>
+    simp only [applyOp]
+    unfold unsealNsFault
+    split
+    · exact h
+    · split
+      · exact h
+      · exact Inv_unsealNs s h ns now
   | sealNs ns => exact Inv_sealNs s h ns
   | unsealNs ns now => exact Inv_unsealNs s h ns now
   | unsealBegin ns hh now => exact Inv_unsealBegin s h ns hh now
